@@ -111,6 +111,28 @@ pub fn run(ctx: &mut Ctx) {
             ctx.check(&format!("hmap.order:{:04b}", mask), "hmap-equal-maps-split", &["HSH.map_hash.ensures.block"], stream(&m1) == stream(&m2) && m1 == m2, "streams differ".into(), "equal maps feed equal streams".into());
         }
     }
+    // ---- nested containers: a set of sets / a map with set values, built in different orders and capacities
+    for n in [2usize, 5, 40] {
+        let case = format!("hset.nested:{}", n);
+        if ctx.want(&case) {
+            let inner = |rev: bool, cap: usize| -> HashableHashSet<u32> {
+                let mut s: HashableHashSet<u32> = HashableHashSet::with_capacity(cap);
+                let it: Vec<u32> = (0..n as u32).map(|k| k * 7919 % 1009).collect();
+                if rev { for x in it.iter().rev() { s.insert(*x); } } else { for x in it.iter() { s.insert(*x); } }
+                s
+            };
+            let mut o1: HashableHashSet<HashableHashSet<u32>> = HashableHashSet::new();
+            o1.insert(inner(false, 0));
+            let mut o2: HashableHashSet<HashableHashSet<u32>> = HashableHashSet::new();
+            o2.insert(inner(true, 512));
+            let mut m1: HashableHashMap<u8, HashableHashSet<u32>> = HashableHashMap::new();
+            m1.insert(1, inner(false, 0));
+            let mut m2: HashableHashMap<u8, HashableHashSet<u32>> = HashableHashMap::new();
+            m2.insert(1, inner(true, 512));
+            let ok = stream(&o1) == stream(&o2) && o1 == o2 && stream(&m1) == stream(&m2) && m1 == m2;
+            ctx.check(&case, "hset-nested-equal-sets-split", &["HSS.hash.ensures.self-delimiting-block", "HSS.map_hash.ensures.self-delimiting-block"], ok, "streams of equal nested containers differ".into(), "equal nested sets feed equal streams however they were built".into());
+        }
+    }
     // ---- which of two adjacent collections holds an element
     for e in [0u8, 5, 255] {
         let case = format!("hset.adjacent:{}", e);
